@@ -513,7 +513,41 @@ def r9_context_state(c, facts):
         c.bad(R, 'memo-table-type', 'Context.cache is no longer a map: %s' % cty[:120])
 
 
+SCAN_OK = {
+    'Context::skip_trivia': 'walks one run of blanks and comments; the cursor it returns is the one every read starts from',
+    'Debug>::fmt': 'prints the token list, not part of parsing',
+}
+
+
+def r11_no_scan(c, facts, rule='C12.R11'):
+    """the parser reads tokens one at a time where a production asks for one: no function of the parsing context or of
+    the productions reads tokens in a loop of its own. A look-ahead that scans to the matching bracket is outside the
+    memo table and is repeated at every nesting level: the work grows with tokens times depth."""
+    from facts import callee_of
+    R = c.rule(rule, 'NO-SCAN: no token read (Context::pop / head, TokenList::advance / kind / get) stands in a loop, apart from the trivia run of skip_trivia')
+    n = 0
+    for fn in sorted(facts.fns.values(), key=lambda f: f.qname):
+        if not fn.mir or fn.crate not in ('oal_model', 'oal_syntax'):
+            continue
+        for b, t in fn.calls():
+            d = P.strip((callee_of(t) or {}).get('def', ''))
+            if not (d.split('::')[-1] in ('pop', 'head', 'advance', 'kind', 'get') and ('grammar::Context' in d or 'lexicon::TokenList' in d)):
+                continue
+            n += 1
+            if not any(b in fn.reachable_from(x) for x in fn.succ(b)):
+                continue
+            home = facts.home(fn).qname
+            why = [v for k, v in SCAN_OK.items() if k in home]
+            inst = {'fn': fn.qname, 'read': d.split('::', 1)[-1]}
+            if why:
+                c.ok(R, dict(inst, reason=why[0]))
+            else:
+                c.bad(R, 'token-read-in-loop:%s:%s' % (home.split('::', 1)[-1], d.split('::')[-1]), '%s reads tokens in a loop (%s): the scan is not memoised, and a production that triggers it at every nesting level makes the parser\'s work grow with tokens times depth' % (fn.qname, d), **inst)
+    c.floor(R, 'token reads in the parsing context and the productions', n, 8)
+
+
 def run(c, facts):
+    c.run(r11_no_scan, facts)
     c.run(r10_wrapper_always_memoises, facts)
     c.run(r9_context_state, facts)
     c.run(r8_arena_monotone, facts)
